@@ -16,6 +16,7 @@ import (
 	"fmt"
 	"io"
 	"os"
+	"runtime"
 	"sort"
 	"strings"
 	"sync"
@@ -123,10 +124,13 @@ type fakeSrv struct {
 	noMore   bool          // a response said more_results = false
 	maxSync  int           // cut-off for a scanner that does not make progress
 	wire     bool          // responses reach the scanner decoded from their wire form (cellblock)
+	flyAt    int           // the answer to this request is lost: the scan's context ends while it is in flight
+	cancelFn func()
 }
 
 var errInjected = errors.New("injected rpc failure")
 var errUnknownScanner = errors.New("UnknownScannerException")
+var errMisrouted = errors.New("UnknownScannerException (request reached a server that does not hold this scanner)")
 var errTooMany = errors.New("too many requests")
 
 func (c *scanCase) regBounds(i int) (start, stop []byte) {
@@ -229,8 +233,8 @@ func (f *fakeSrv) SendRPC(call hrpc.Call) (proto.Message, error) {
 		sc.reg != c.regionOf(scan.Key(), scan.Reversed()) {
 		// the request went, by its key, to the server of another region: nobody there knows this
 		// scanner id, and the scanner it means stays open where it is
-		f.replies = append(f.replies, "E/unknownscanner")
-		return nil, errUnknownScanner
+		f.replies = append(f.replies, "E/misrouted")
+		return nil, errMisrouted
 	}
 	if kind == "X" {
 		delete(f.scanners, req.GetScannerId())
@@ -323,6 +327,18 @@ func (f *fakeSrv) SendRPC(call hrpc.Call) (proto.Message, error) {
 			p = 1
 		}
 		fs = append(fs, fmt.Sprintf("%s.%d.%d.%d", hx(fr.key), fr.from, fr.count, p))
+	}
+	if idx == f.flyAt {
+		// the server has executed the request; the caller's context ends before the answer is back:
+		// the client drops the response (region client: "context has expired, don't bother")
+		_, kept := f.scanners[sc.id]
+		if isOpen && kept {
+			f.replies = append(f.replies, "E/lostopen")
+		} else {
+			f.replies = append(f.replies, "E/canceled")
+		}
+		f.cancelFn()
+		return nil, context.Canceled
 	}
 	ra, rb := c.regBounds(sc.reg)
 	f.replies = append(f.replies, fmt.Sprintf("R/%s~%s/%s/%s%s/%s", hx(ra), hx(rb), idOut, c06b01(mi), c06b01(mr), joinOrDash(fs, ",")))
@@ -540,6 +556,8 @@ func errStr(err error) string {
 		return "rpcerr"
 	case err == errUnknownScanner:
 		return "unknownscanner"
+	case err == errMisrouted:
+		return "misrouted"
 	case err == errTooMany:
 		return "toomany"
 	}
@@ -637,9 +655,12 @@ func runScan(c *scanCase, ch *chooser, plan endPlan, cfg runCfg) runOut {
 		bound += r.n
 	}
 	f := &fakeSrv{c: c, ch: ch, chaos: cfg.chaos, scanners: map[uint64]*rscanner{}, nextID: cfg.idBase,
-		errAt: -1, hbLeft: cfg.hb, maxFrags: cfg.maxFrags, maxSync: bound, wire: cfg.idBase%4 != 0}
+		errAt: -1, flyAt: -1, cancelFn: cancel, hbLeft: cfg.hb, maxFrags: cfg.maxFrags, maxSync: bound, wire: cfg.idBase%4 != 0}
 	if plan.kind == "err" {
 		f.errAt = plan.n
+	}
+	if plan.kind == "cancelfly" {
+		f.flyAt = plan.n
 	}
 	if cfg.silentClose {
 		f.release = make(chan struct{})
@@ -756,6 +777,21 @@ func runScan(c *scanCase, ch *chooser, plan endPlan, cfg runCfg) runOut {
 				break
 			}
 			time.Sleep(20 * time.Microsecond)
+		}
+	}
+	if plan.kind == "cancelfly" {
+		// the server is ahead of what the client knows (its last answer was lost): a close request may
+		// still be on its way for a scanner the server has already dropped; wait until the
+		// conversation has been quiet for a while
+		last, since, t0 := -1, time.Now(), time.Now()
+		for time.Since(since) < 300*time.Microsecond && time.Since(t0) < 50*time.Millisecond {
+			f.mu.Lock()
+			n := len(f.trace)
+			f.mu.Unlock()
+			if n != last {
+				last, since = n, time.Now()
+			}
+			runtime.Gosched()
 		}
 	}
 	f.mu.Lock()
@@ -1016,6 +1052,9 @@ func allEnds(out *Out, c *scanCase, mk func() *chooser, cfg runCfg) {
 	}
 	for i := 0; i < base.nSync; i++ {
 		emit(out, c, mk(), endPlan{kind: "err", n: i}, cfg)
+	}
+	for i := 0; i < base.nSync; i++ {
+		emit(out, c, mk(), endPlan{kind: "cancelfly", n: i}, cfg)
 	}
 }
 
